@@ -197,6 +197,11 @@ func rulesC11(c *Ctx) {
 							for _, w2 := range Writes(sp.Body, false) {
 								if sp.ObjOf(w2.LHS) == uv && w2.RHS != nil && sp.FieldPath(w2.RHS) == "TokenInfo.UserID" && g.ReachableFrom(g.VertexOf(w2.Stmt))[wv] {
 									okOwner = true
+									// ... whenever the request carries token info: nothing but the presence test stands in front of it (an owner
+									// recorded only for, say, tokens with an expiration leaves the other sessions open to every user)
+									if nl, what := g.semanticLeaves(g.VertexOf(w2.Stmt)); nl > 0 {
+										c.Fail(key+":owner-captured-for-every-authenticated-creator", f, w2.Stmt, "the owner is recorded under a condition beyond the presence of token info (%s)", what)
+									}
 								}
 							}
 						}
